@@ -51,6 +51,28 @@ def _source_facts():
     return a["bufferSize"], sum(1 for v in a["status"].values() if v is not None), len(a["status"])
 
 
+def _enc(t):
+    if t == "":
+        return "-"
+    return "".join(c if (c.isascii() and c.isalnum()) or c in "/._" else "".join("~%02x" % b for b in c.encode("latin-1", "replace"))
+                   for c in t)
+
+
+def _doc_rows_file():
+    """the example tables of the current path.hh as op lines (one row each); the harness oracle compares the code with
+    the documented result, so a disagreement between documentation and code is reported with the row as replay"""
+    import dvlib as L
+    proc, pretty, concat = tr_c18.analyse(os.environ.get("VERIF_REPO", "/repo"))["tables"]
+    lines = ["tp %s %s" % (_enc(p), _enc(r)) for p, r in proc]
+    lines += ["tq %s %s %s" % (_enc(p), "1" if d == "true" else "0", _enc(r)) for p, d, r in pretty]
+    lines += ["tc %s %s %s" % (_enc(b), _enc(p), _enc(r)) for b, p, r in concat]
+    os.makedirs(L.BUILD, exist_ok=True)
+    path = os.path.join(L.BUILD, "C18_docrows_input.ops")
+    with open(path, "w") as f:
+        f.write("\n".join(lines) + "\n")
+    return path
+
+
 def _fcases(N, extra):
     top = min(2 * N + 100, 4200)
     sweep = top + 1 + sum(1 for c in (N, 2 * N) for t in range(c - 8, c + 9) if t > top)
@@ -62,7 +84,7 @@ def batches(tier, seed):
     LU = 9 if quick else 11
     LB = 4 if quick else 5
     N, nfall, nitems = _source_facts()
-    res = []
+    res = [dict(replay=_doc_rows_file(), tag="docrows")]
     # exhaustive unary enumeration, in chunks so memory stays flat
     nu = _count(LU)
     chunk = 350000
